@@ -128,6 +128,20 @@ mut("c12_no_close_sync", "src/storage/core.rs", "                ablob.fsyncdata
 mut("c12_should_try_ge", "src/storage/core.rs", "        dirty_bytes > self.config().max_dirty_bytes_before_sync()", "        dirty_bytes > self.config().max_dirty_bytes_before_sync() + 64", ["C12"], "threshold off by 64 bytes")
 mut("c12_synced_post_size", "src/io/unix/sync.rs", "               file_inner.synced_size.fetch_max(size, Ordering::SeqCst);", "               file_inner.synced_size.fetch_max(size.saturating_sub(1), Ordering::SeqCst);", ["C12"], "one byte always considered dirty: limit 0 syncs forever but harmless? (dirty accounting)")
 mut("c12_f7_revert", "src/storage/core.rs", "        self.inner.safe.read().await.fsyncdata().await\n    }", "        self.inner.fsyncdata().await\n    }", ["C12"], "reverts fix F7")
+# ---- C13
+mut("c13_lost_dump_request", "src/storage/observer_worker.rs", """                if !self.try_run_old_blob_indexes_dump_task().await {
+                    // Dump task is already running and it can miss the blobs closed after its start.
+                    // Request should not be lost, so repeat it later
+                    self.defer_blob_indexes_dump().await?;
+                }""", "                self.try_run_old_blob_indexes_dump_task().await;", ["C13"], "reverts fix: dump request dropped while a dump task runs")
+mut("c13_break_on_error", "src/storage/observer_worker.rs", """                    error!("ObserverWorker error, request skipped: {:?}", err);""", """                    error!("ObserverWorker error, request skipped: {:?}", err); break;""", ["C13"], "worker loop ends (quietly) on the first failed request")
+mut("c13_no_rotation_on_count", "src/storage/observer_worker.rs", """                if active_blob.file_size() < config_max_size
+                    && (active_blob.records_count() as u64) < config_max_count
+                {
+                    return Ok(false);""", """                if active_blob.file_size() < config_max_size
+                {
+                    return Ok(false);""", ["C13"], "worker ignores the record limit")
+mut("c13_shutdown_keeps_sender", "src/storage/observer.rs", "            std::mem::drop(sender); // Drop sender. That trigger ObserverWorker stopping", "            let _keep = sender.clone(); std::mem::drop(sender);", ["C13"], "close() never returns: a sender clone keeps the worker alive")
 # ---- C15
 mut("c15_count_from_keys", "src/blob/index/bptree/serializer.rs", "            let headers_len = self\n                .headers_btree\n                .iter()\n                .fold(0, |acc, (_k, v)| acc + v.len());", "            let headers_len = self\n                .headers_btree\n                .iter()\n                .fold(0, |acc, (_k, v)| acc + v.len().min(1));", ["C15", "C09"], "on-disk records_count from keys")
 mut("c15_disk_used_no_active", "src/storage/core.rs", "            result += ablob.read().await.disk_used();", "            result += 0 * ablob.read().await.disk_used();", ["C15"])
